@@ -569,6 +569,21 @@ def check_identities(facts):
         need("dom(%s) <= %s" % (tname.split("::")[-1], prop), subset(dom, t),
              "%s changes %s, which %s says does not change" % (tname.split("::")[-1], first_cp(minus(dom, t)), prop))
 
+    # simple case folding factors through simple uppercase: fold(toUpper(x)) == fold(x). (CaseFolding.txt C+S rows are built from
+    # the lowercase of the uppercase; the one exception is U+0131, whose uppercase `I` folds to `i` — the Turkic T rows are not used.)
+    fr, ur = fold_rows(facts, "unicodetables::FOLDS"), fold_rows(facts, "unicodetables::TO_UPPERCASE")
+    if fr is None or ur is None:
+        r.error("FOLDS / TO_UPPERCASE rows not resolvable")
+    else:
+        fo, upm = fold_map(fr), fold_map(ur)
+        badp = [(x, u) for x, u in sorted(upm.items()) if x != 0x131 and fo.get(u, u) != fo.get(x, x)]
+        need("fold(toUpper(x)) == fold(x) over dom(TO_UPPERCASE) (%d code points, U+0131 excepted)" % len(upm), not badp,
+             "U+%04X uppercases to U+%04X, but the two do not have the same simple case folding (%s): a FOLDS row is missing or wrong — "
+             "e.g. the status-S rows (U+1F88 -> U+1F80, U+1E9E -> U+00DF) were dropped" % (
+                 badp[0][0] if badp else 0, badp[0][1] if badp else 0,
+                 "U+%04X vs U+%04X" % (fo.get(badp[0][1], badp[0][1]), fo.get(badp[0][0], badp[0][0])) if badp else ""))
+        r.floor("uppercase_pairs", len(upm), 1400)
+
     # scripts
     scripts = {}
     for v, ent in scd.items():
